@@ -222,6 +222,25 @@ def run(tier, seed):
                 files, main_path, inlined, subs, used = main_case(rng, root)
                 write_files(files)
                 os.makedirs(os.path.join(root, "elsewhere"), exist_ok=True)
+                # decoys: files with the same RELATIVE spelling as every relative include, but relative to the working
+                # directories (a different program of the same name): includes are relative to the including file only
+                import re as _re
+                decoy_dirs = [os.path.join(root, "elsewhere"), root]
+                for ftext in list(files.values()):
+                    for inc in _re.findall(r'include "([^"]+)"', ftext):
+                        if os.path.isabs(inc):
+                            continue
+                        for dd in decoy_dirs:
+                            dp = os.path.normpath(os.path.join(dd, inc))
+                            if dp in files or os.path.exists(dp) or not dp.startswith(root):
+                                continue
+                            nm = os.path.splitext(os.path.basename(inc))[0]
+                            real = subs.get(nm)
+                            if real is None:
+                                continue
+                            os.makedirs(os.path.dirname(dp), exist_ok=True)
+                            with open(dp, "w") as fh:
+                                fh.write("name %s\nversion 1.0\n\n" % nm + "".join("Decoy(%s) | %d\n" % (", ".join("{%s}" % q for q in real.params) or "0", m) for m in real.modes))
                 cwds = [root, os.path.dirname(main_path), os.path.join(root, "elsewhere")]
                 msg = None
                 digests = []
